@@ -1,11 +1,15 @@
 package main
 
 import (
+	"bufio"
 	"encoding/base64"
 	"encoding/json"
 	"errors"
 	"fmt"
+	"io"
 	"math"
+	"os"
+	"os/exec"
 	"strings"
 	"time"
 
@@ -208,7 +212,7 @@ func hasNonFinite(a any) bool {
 func c13Event(src []byte, origin string) obj {
 	ev := obj{"origin": origin, "srcb64": base64.StdEncoding.EncodeToString(src), "panic": false, "timeout": false, "outcome": "hard",
 		"jsonok": false, "yamlok": false, "stepsislist": false, "hasin": false, "instep": obj{"t": "q", "e": []any{}},
-		"outsteps": obj{"t": "q", "e": []any{}}, "kinds": []any{}, "nunknown": 0, "nfallback": 0, "nonfinite": false, "wsmultiline": false, "skipped": false}
+		"outsteps": obj{"t": "q", "e": []any{}}, "kinds": []any{}, "nunknown": 0, "nfallback": 0, "nonfinite": false, "wsmultiline": false, "skipped": false, "crash": false}
 	ins, ok, nf, tooBig := inputSteps(src)
 	ev["nonfinite"] = nf
 	if tooBig {
@@ -342,10 +346,109 @@ var c13Replacements = map[string]any{
 	"float": 2.5, "emptymap": orderedJSON{}, "emptyseq": []any{},
 }
 
+// c13Worker: child mode. Reads "origin<TAB>base64" lines, answers one event per line.
+// A fatal error (stack overflow) kills only this process; the parent records it.
+func c13Worker() {
+	in := bufio.NewReaderSize(os.Stdin, 1<<20)
+	out := bufio.NewWriter(os.Stdout)
+	for {
+		line, err := in.ReadString('\n')
+		if len(line) > 0 {
+			origin, b64, _ := strings.Cut(strings.TrimRight(line, "\n"), "\t")
+			b, derr := base64.StdEncoding.DecodeString(b64)
+			if derr != nil {
+				fatal("worker: %v", derr)
+			}
+			out.Write(asciiJSON(c13Event(b, origin)))
+			out.WriteByte('\n')
+			out.Flush()
+		}
+		if err != nil {
+			return
+		}
+	}
+}
+
+type c13Child struct {
+	cmd *exec.Cmd
+	in  io.WriteCloser
+	out *bufio.Reader
+}
+
+func startC13Child() *c13Child {
+	cmd := exec.Command(os.Args[0], "c13", "-worker", "1")
+	in, err := cmd.StdinPipe()
+	if err != nil {
+		fatal("child pipe: %v", err)
+	}
+	outp, err := cmd.StdoutPipe()
+	if err != nil {
+		fatal("child pipe: %v", err)
+	}
+	cmd.Stderr = io.Discard
+	if err := cmd.Start(); err != nil {
+		fatal("child start: %v", err)
+	}
+	return &c13Child{cmd: cmd, in: in, out: bufio.NewReaderSize(outp, 1<<22)}
+}
+
+var c13child *c13Child
+
+// c13Isolated runs one input in the worker child; a dead or silent child is an observed crash / hang of that input.
+func c13Isolated(src []byte, origin string) obj {
+	if c13child == nil {
+		c13child = startC13Child()
+	}
+	fmt.Fprintf(c13child.in, "%s\t%s\n", origin, base64.StdEncoding.EncodeToString(src))
+	type ans struct {
+		line string
+		err  error
+	}
+	ch := make(chan ans, 1)
+	child := c13child
+	go func() { l, err := child.out.ReadString('\n'); ch <- ans{l, err} }()
+	blank := c13Event(nil, origin) // shape of an event
+	blank["srcb64"] = base64.StdEncoding.EncodeToString(src)
+	blank["skipped"], blank["outcome"] = false, "hard"
+	select {
+	case a := <-ch:
+		if a.err != nil || len(a.line) == 0 {
+			child.cmd.Process.Kill()
+			child.cmd.Wait()
+			c13child = nil
+			blank["crash"] = true
+			return blank
+		}
+		var ev obj
+		d := json.NewDecoder(strings.NewReader(a.line))
+		d.UseNumber()
+		if err := d.Decode(&ev); err != nil {
+			fatal("child answer: %v", err)
+		}
+		return ev
+	case <-time.After(20 * time.Second):
+		child.cmd.Process.Kill()
+		child.cmd.Wait()
+		c13child = nil
+		blank["timeout"] = true
+		return blank
+	}
+}
+
 func runC13(args []string) {
 	fl := parseFlags(args)
+	if fl.str("worker", "") != "" {
+		c13Worker()
+		return
+	}
 	tw := newTraceWriter(fl.str("out", ""))
 	defer tw.close()
+	defer func() {
+		if c13child != nil {
+			c13child.in.Close()
+			c13child.cmd.Wait()
+		}
+	}()
 	samples := []any{}
 	outcomes := map[string]int{}
 	emit := func(ev obj) {
@@ -365,7 +468,7 @@ func runC13(args []string) {
 			if err != nil {
 				fatal("bad srcb64: %v", err)
 			}
-			emit(c13Event(b, "replay"))
+			emit(c13Isolated(b, "replay"))
 		})
 		writeSummary(fl.str("summary", ""), obj{"events": tw.n})
 		return
@@ -392,14 +495,14 @@ func runC13(args []string) {
 				if fl.int("injectsample", 1) > 1 && rng.Intn(fl.int("injectsample", 1)) != 0 {
 					continue
 				}
-				emit(c13Event(utf8JSON(replaceAt(doc, p, rep)), "inject:"+name))
+				emit(c13Isolated(utf8JSON(replaceAt(doc, p, rep)), "inject:"+name))
 			}
 		}
 	}
 	// (ii) handwritten seeds with anchors, merges, odd shapes
 	for _, s := range c13Seeds {
 		corpus = append(corpus, []byte(s))
-		emit(c13Event([]byte(s), "seed"))
+		emit(c13Isolated([]byte(s), "seed"))
 	}
 	// (iii) byte-level mutations
 	dict := []string{"&a ", "*a", "<<: ", "!!", "{", "}", "[", "]", "? ", ": ", "- ", "|", ">", "\t", "\xef\xbb\xbf", "\x00", "---\n", "...\n", "~", "null",
@@ -435,7 +538,7 @@ func runC13(args []string) {
 		if len(b) > 1<<16 {
 			b = b[:1<<16]
 		}
-		emit(c13Event(b, "mutation"))
+		emit(c13Isolated(b, "mutation"))
 	}
 	writeSummary(fl.str("summary", ""), obj{"events": tw.n, "outcomes": outcomes, "samples": samples})
 }
